@@ -184,7 +184,7 @@ def check(ctx, st, c):
            kf_h=t in ('ax', 'az', 'bx', 'bz'))
 
 
-def run_case(ctx, st, pt, p: Pep, mono, charges):
+def run_case(ctx, st, pt, p: Pep, mono, charges, types=None):
     text = rp.write(p)
     ctx.begin({'text': text, 'pep': rp.to_json(p), 'monoisotopic': mono, 'charges': charges})
     c = {'pep': p, 'text': text, 'mono': mono, 'masses': {}, 'frags': None}
@@ -203,17 +203,21 @@ def run_case(ctx, st, pt, p: Pep, mono, charges):
         # the peptide as text, as a parsed annotation, or as an equal annotation whose modification dictionary is out of
         # positional order (what reverse()/programmatic construction leave behind)
         arg = text if r < 0.6 else pt.parse(text) if r < 0.8 else rp.scrambled(pt, text, ctx.rng)
-        pt.fragment(arg, list(chem.ALL_ION_TYPES), charges, monoisotopic=mono)
+        types = list(types or chem.ALL_ION_TYPES)
+        if ctx.rng.random() < 0.3:
+            pt.fragment(arg, types, charges, mono)       # the documented positional order
+        else:
+            pt.fragment(arg, types, charges, monoisotopic=mono)
         frags = c['frags']
         if p.res or p.nterm or p.cterm:
             c['frags'] = None
-            pt.fragment(p.seq, list(chem.ALL_ION_TYPES), [1], monoisotopic=mono)
+            pt.fragment(p.seq, types, [1], monoisotopic=mono)
             c['unmod'] = c['frags']
             c['frags'] = frags
         # the class-based fragmenter (cached per-residue masses) must obey the same identities
         c['phase'] = 'fragmenter'
         c['frags2'] = None
-        pt.Fragmenter(arg if not isinstance(arg, str) else text, mono).fragment(list(chem.ALL_ION_TYPES), charges)
+        pt.Fragmenter(arg if not isinstance(arg, str) else text, mono).fragment(types, charges)
         c['phase'] = 'done'
         if c['M'] is None or c['frags'] is None or c['frags2'] is None:
             ctx.inconclusive_case('monitor not reached')
@@ -247,6 +251,14 @@ def run(ctx):
         mono = ctx.rng.random() < 0.6
         charges = [1, 2, 3, 4] if ctx.rng.random() < 0.25 else [1, 2]
         run_case(ctx, st, pt, p, mono, charges)
+    # protein-sized chains (100..160 residues, past any length threshold of a fast path): terminal series only
+    import dataclasses as _dc
+    longc = _dc.replace(cfg, min_len=100, max_len=160, p_res=0.03, p_nterm=0.6, p_cterm=0.6)
+    for _ in range(ctx.n(32, 800)):
+        p = gp.gen_pep(ctx.rng, longc)
+        for m in p.all_mods():
+            m.mult = min(m.mult, 3)
+        run_case(ctx, st, pt, p, ctx.rng.random() < 0.4, [1, 2], types=['b', 'y', 'a', 'c', 'x', 'z'])
     ctx.extra['identities_evaluated'] = st.identities
 
 
